@@ -68,10 +68,11 @@ func (api *HTTP) handlePostMessage(w http.ResponseWriter, r *http.Request, sessi
 		remoteAddr = host
 	}
 
-	// IRC messages are separated by the newline character, so ensure the
-	// message does not contain any newlines.
+	// IRC messages are separated by CR and/or LF, and must not contain NUL
+	// (RFC 2812, section 2.3.1), so ensure the message contains none of
+	// these: they would be relayed verbatim to other clients otherwise.
 	data := req.Data
-	if idx := strings.IndexByte(data, '\n'); idx > -1 {
+	if idx := strings.IndexAny(data, "\n\r\x00"); idx > -1 {
 		data = data[:idx]
 	}
 	msg := &robust.Message{
